@@ -1,4 +1,5 @@
 import Operon.Lemmas.C01
+import Operon.Lemmas.C01Work
 import Operon.Gen.MitoFacts
 /-!
 # C01 — the safe evaluator is confined to its allow-list, total, and resource-bounded
@@ -203,6 +204,93 @@ theorem c01_tool_pathway (T : Tables) (env : Env) (tools : List ToolReg) (allowe
   · exact ⟨[], by simp, Or.inl rfl⟩
   · exact c01_tool_path T env tools allowed e
 
+/-- What one call of the entry point may do: a walker action, or running a registered tool that passed the capability
+    check. -/
+def AllowedEntry (T : Tables) (env : Env) (cfg : Cfg) (a : Act) : Prop :=
+  Allowed T env a ∨ ∃ tn as ks t, a = .tool tn as ks ∧ findTool cfg.tools tn = some t ∧ capsOk cfg.allowed t = true
+
+/-- Confinement at the ENTRY POINT, for every pathway — forced or auto-detected (`detect` is arbitrary) —, every
+    configuration, input, table content and environment: every environment interaction of one `metabolize` call is a
+    walker action allowed by the tables (listed name, table operator, `bool()`, call of a listed binding) or the body of a
+    registered, permitted tool; a tool body runs at most once, as the LAST action, and only on the tool pathway.  The
+    logic pathway adds one `bool()`; the transform pathway interacts with nothing. -/
+theorem c01_metabolize_confined (T : Tables) (env : Env) (cfg : Cfg) (latched : Bool) (d : Pathway) (inp : Inp)
+    (forced : Option Pathway) :
+    (∀ a ∈ (metabolize T env cfg latched d inp forced).1, AllowedEntry T env cfg a) ∧
+    (∀ pre tn as ks rest, (metabolize T env cfg latched d inp forced).1 = pre ++ Act.tool tn as ks :: rest →
+        rest = [] ∧ forced.getD d = .oxidative ∧ ∀ a ∈ pre, Allowed T env a) := by
+  have key : ∀ p, (∀ a ∈ (pathwayBody T env cfg inp p).1, AllowedEntry T env cfg a) ∧
+      (∀ pre tn as ks rest, (pathwayBody T env cfg inp p).1 = pre ++ Act.tool tn as ks :: rest →
+        rest = [] ∧ p = .oxidative ∧ ∀ a ∈ pre, Allowed T env a) := by
+    intro p
+    -- a trace all of whose actions are walker actions contains no tool action
+    have noTool : ∀ (tr : List Act), (∀ a ∈ tr, Allowed T env a) →
+        (∀ a ∈ tr, AllowedEntry T env cfg a) ∧
+        (∀ pre tn as ks rest, tr = pre ++ Act.tool tn as ks :: rest →
+          rest = [] ∧ p = .oxidative ∧ ∀ a ∈ pre, Allowed T env a) := by
+      intro tr h
+      refine ⟨fun a ha => Or.inl (h a ha), fun pre tn as ks rest he => ?_⟩
+      exact absurd (h (.tool tn as ks) (by rw [he]; simp)) (by simp [Allowed])
+    unfold pathwayBody
+    split
+    · split <;> exact noTool _ (by simp)
+    · split
+      · exact noTool _ (by simp)
+      · rename_i e _
+        split
+        · unfold glycolysis; split
+          · exact noTool _ (by simp)
+          · exact noTool _ (walk_confined T env e)
+        · unfold krebs; split
+          · exact noTool _ (by simp)
+          · exact noTool _ (bind_all _ _ _ (walk_confined T env (normalise e)) fun v =>
+              bind_all _ _ _ (truthyR_allowed T env v) fun b => by simp)
+        · rename_i hp1 hp2
+          have hp : p = .oxidative := by cases p <;> simp_all
+          obtain ⟨pre, hpre, h⟩ := c01_tool_pathway T env cfg.tools cfg.allowed e
+          rcases h with h | ⟨tn, args, kn, kv, t, as, ks, _, hf, hc, h⟩
+          · rw [h]; exact noTool _ hpre
+          · rw [h]
+            refine ⟨fun a ha => ?_, fun pre' tn' as' ks' rest he => ?_⟩
+            · rcases List.mem_append.mp ha with h1 | h1
+              · exact Or.inl (hpre a h1)
+              · simp only [List.mem_singleton] at h1
+                exact Or.inr ⟨tn, as, ks, t, h1, hf, hc⟩
+            · -- the only tool action of `pre ++ [tool]` is the last one
+              have hlen : pre'.length = pre.length := by
+                rcases Nat.lt_trichotomy pre'.length pre.length with hlt | heq | hgt
+                · have h1 : (pre ++ [Act.tool tn as ks])[pre'.length]? = some (Act.tool tn' as' ks') := by
+                    rw [he]; simp
+                  rw [List.getElem?_append_left hlt] at h1
+                  have hm : Act.tool tn' as' ks' ∈ pre := List.mem_of_getElem? h1
+                  exact absurd (hpre _ hm) (by simp [Allowed])
+                · exact heq
+                · have h1 := congrArg List.length he
+                  simp at h1; omega
+              have hsplit := List.append_inj he.symm hlen
+              obtain ⟨h1, h2⟩ := hsplit
+              refine ⟨by simpa using (List.cons.inj h2).2, hp, by rw [h1]; exact hpre⟩
+  unfold metabolize
+  have nil : (∀ a ∈ ([] : List Act), AllowedEntry T env cfg a) ∧
+      (∀ pre tn as ks rest, ([] : List Act) = pre ++ Act.tool tn as ks :: rest →
+        rest = [] ∧ forced.getD d = .oxidative ∧ ∀ a ∈ pre, Allowed T env a) :=
+    ⟨by simp, fun pre tn as ks rest he => by simp at he⟩
+  split
+  · exact nil
+  · split
+    · exact nil
+    · simp only
+      split
+      · exact nil
+      · split
+        · exact nil
+        · have hk := key (forced.getD d)
+          rcases hb : pathwayBody T env cfg inp (forced.getD d) with ⟨t, r⟩
+          rw [hb] at hk
+          cases r with
+          | ok v => simp only; split <;> exact hk
+          | error er => exact hk
+
 /-- Over-long input and a latched engine execute nothing at all and report failure. -/
 theorem c01_guards_run_nothing (T : Tables) (env : Env) (cfg : Cfg) (latched : Bool) (d : Pathway) (inp : Inp)
     (forced : Option Pathway) (h : inp.len > cfg.maxLen ∨ latched = true) :
@@ -293,6 +381,41 @@ theorem c01_print_outside_try_raises_witness :
 theorem c01_work_linear (T : Tables) (env : Env) (e : Expr) : (walk T env e).1.length + 2 ≤ 3 * e.nodes := by
   have := walk_len T env e; have := nodes_pos e; omega
 
+/-- Every node of the text is evaluated AT MOST ONCE: the number of walker invocations (`_compute_node` entries, the
+    quantity the harness counts on the real engine and compares with the model on every `met` / `dg` line) is at most the
+    number of AST nodes and at least one — for every tree, every table content, every environment.  In particular the
+    operands of a comparison chain are not re-evaluated per link and nothing is evaluated once per enclosing level, so
+    nesting cannot make the work exponential in the depth. -/
+theorem c01_visits_linear (T : Tables) (env : Env) (e : Expr) : 1 ≤ visits T env e ∧ visits T env e ≤ e.nodes :=
+  ⟨visits_pos T env e, visits_le T env e⟩
+
+/-- The same at the entry point, for every pathway, configuration and input: one `metabolize` call enters the walker at
+    most once per node of the parsed text (the logic pathway's `true`/`false` rewriting keeps the node count; the tool
+    pathway evaluates the argument nodes only; over-long, latched, unparsable and transform inputs enter it not at all). -/
+theorem c01_entry_visits_linear (T : Tables) (env : Env) (cfg : Cfg) (latched : Bool) (d : Pathway) (inp : Inp)
+    (forced : Option Pathway) :
+    metVisits T env cfg latched d inp forced ≤ (inp.parsed.map Expr.nodes).getD 0 := by
+  unfold metVisits
+  split
+  · omega
+  · split
+    · omega
+    · split
+      · omega
+      · unfold pathwayVisits
+        split
+        · omega
+        · split
+          · omega
+          · rename_i e he
+            simp only [he, Option.map_some, Option.getD_some]
+            split
+            · omega
+            · split
+              · exact visits_le T env e
+              · have := visits_le T env (normalise e); rw [nodes_normalise] at this; exact this
+              · have := toolVisits_le T env cfg.tools cfg.allowed e; omega
+
 /-- PARTIAL (the resource clause).  For integer arithmetic without `**` the value that CPython has to materialise
     stays below `2 ^ budget`, where `budget` is the number of bits of the literals plus one per addition — linear in
     the size of the text.  What is missing for the full clause: (i) powers, factorial and sequence repetition are
@@ -332,6 +455,18 @@ example : (toolPath Gen.tables envAll [⟨"t", []⟩] none (.call (.name "t") [.
 
 /-- `c01_guards_run_nothing`: an over-long input -/
 example : (10001 : Nat) > (⟨10000, true, false, [], none, true, true, true⟩ : Cfg).maxLen := by decide
+
+/-- `c01_visits_linear` is tight on a nest: `0 < (0 < 1 < 2) < 2` has 7 nodes and all 7 are entered exactly once -/
+example : visits Gen.tables ⟨fun _ => .h 1, fun _ _ => .ok (.bool true), fun _ => .ok true, fun _ _ _ => .ok (.h 3),
+      fun _ _ _ => .ok (.h 4)⟩
+    (.compare (.const (.h 0)) [.lt, .lt]
+      [.compare (.const (.h 0)) [.lt, .lt] [.const (.h 1), .const (.h 2)], .const (.h 2)]) = 7 := by
+  rfl
+
+/-- `c01_metabolize_confined`, second part, is reachable: on the tool pathway the registered tool runs last -/
+example : (metabolize Gen.tables envAll ⟨10000, true, false, [⟨"t", []⟩], none, true, true, true⟩ false .oxidative
+    ⟨5, some (.call (.name "t") [.name "pi"] [] []), none, false⟩ none).1 = [.lookup "pi", .tool "t" [.h 1] []] := by
+  rfl
 
 /-- `c01_bounded_partial`: `12 * 34 + 5` is pow-free -/
 example : (IExpr.add (.mul (.lit 12) (.lit 34)) (.lit 5)).powFree = true := by decide
